@@ -143,10 +143,48 @@ Proof.
     rewrite X. reflexivity.
 Qed.
 
-(* Product mode on the dask path, for ANY order `norm` of the levels that is a permutation: the merge of
-   the cells never conflicts, every requested run is found under the label made of exactly its values and
-   holds the data produced with them, and nothing else is stored.  (A label attached to the data of
-   another run -- labels from sorted levels over data in declaration order -- is thereby excluded.) *)
+(* Product mode on the dask path, for any list of cells that has exactly the requested runs as its members
+   (whatever their order and multiplicity): the merge of the cells never conflicts, every requested run is
+   found under the label made of exactly its values and holds the data produced with them, and nothing
+   else is stored. *)
+Theorem dask_product_lookup_set : forall names slots en (cells : list assignment),
+  NoDup (map p_key en) ->
+  NoDup (map (name_of names) (map p_key en)) ->
+  (forall c, In c cells <-> In c (map r_params (spec_product en))) ->
+  exists res,
+    assemble (map (fun c => (dask_product_label names c, data_of slots c)) cells) = Some res /\
+    (forall r, In r (spec_product en) ->
+       lookup (spec_label_dask Product names en (r_index r) (r_params r)) res
+       = Some (data_of slots (r_params r))) /\
+    (forall l d, In (l, d) res ->
+       exists r, In r (spec_product en) /\ l = spec_label_dask Product names en (r_index r) (r_params r)
+                 /\ d = data_of slots (r_params r)) /\
+    labels_nodup (map fst res) = true.
+Proof.
+  intros names slots en cells N NN P.
+  assert (Shape : forall c, In c cells -> exists r, In r (spec_product en) /\ c = r_params r).
+  { intros c Hc. apply P in Hc. apply in_map_iff in Hc. destruct Hc as (r & <- & Hr). eauto. }
+  destruct (assemble_runs cells (dask_product_label names) (data_of slots)) as (res & A & F & S & Nd).
+  { intros a b Ha Hb He.
+    destruct (Shape _ Ha) as (ra & Hra & ->). destruct (Shape _ Hb) as (rb & Hrb & ->).
+    destruct (spec_product_shape _ _ Hra) as (ia & _ & Lia & Epa & Lpa).
+    destruct (spec_product_shape _ _ Hrb) as (ib & _ & Lib & Epb & Lpb).
+    rewrite Epa, Epb in He |- *.
+    assert (pick ia en = pick ib en).
+    { eapply dask_product_label_inj with (keys := map p_key en); eauto; rewrite map_length; auto. }
+    congruence. }
+  exists res. split; [exact A|]. repeat split; auto.
+  - intros r Hr. destruct (spec_product_shape _ _ Hr) as (ix & _ & Lix & Ep & Lp).
+    rewrite Ep at 1. rewrite spec_label_dask_product by auto. rewrite <- Ep.
+    apply F. apply P. apply in_map. exact Hr.
+  - intros l d Hin. destruct (S _ _ Hin) as (c & Hc & -> & ->).
+    destruct (Shape _ Hc) as (r & Hr & ->). exists r. split; auto.
+    destruct (spec_product_shape _ _ Hr) as (ix & _ & Lix & Ep & Lp).
+    split; auto. rewrite Ep at 2. rewrite spec_label_dask_product by auto. rewrite <- Ep. reflexivity.
+Qed.
+
+(* ... in particular for ANY order `norm` of the levels that is a permutation.  (A label attached to the data
+   of another run -- labels from sorted levels over data in declaration order -- is thereby excluded.) *)
 Theorem dask_product_lookup : forall norm names slots en,
   (forall l, Permutation (norm l) l) ->
   NoDup (map p_key en) ->
@@ -162,36 +200,82 @@ Theorem dask_product_lookup : forall norm names slots en,
                  /\ d = data_of slots (r_params r)) /\
     labels_nodup (map fst res) = true.
 Proof.
-  intros norm names slots en Hp N NN cells.
+  intros norm names slots en Hp N NN cells. apply dask_product_lookup_set; auto.
   pose proof (dask_product_cells_are_space norm en Hp N) as P. fold cells in P.
-  assert (Shape : forall c, In c cells -> exists r, In r (spec_product en) /\ c = r_params r).
-  { intros c Hc. apply (Permutation_in _ P) in Hc. apply in_map_iff in Hc. destruct Hc as (r & <- & Hr). eauto. }
-  destruct (assemble_runs cells (dask_product_label names) (data_of slots)) as (res & A & F & S & Nd).
-  { intros a b Ha Hb He.
-    destruct (Shape _ Ha) as (ra & Hra & ->). destruct (Shape _ Hb) as (rb & Hrb & ->).
-    destruct (spec_product_shape _ _ Hra) as (ia & _ & Lia & Epa & Lpa).
-    destruct (spec_product_shape _ _ Hrb) as (ib & _ & Lib & Epb & Lpb).
-    rewrite Epa, Epb in He |- *.
-    assert (pick ia en = pick ib en).
-    { eapply dask_product_label_inj with (keys := map p_key en); eauto; rewrite map_length; auto. }
-    congruence. }
-  exists res. split; [exact A|]. repeat split; auto.
-  - intros r Hr. destruct (spec_product_shape _ _ Hr) as (ix & _ & Lix & Ep & Lp).
-    rewrite Ep at 1. rewrite spec_label_dask_product by auto. rewrite <- Ep.
-    apply F. apply (Permutation_in _ (Permutation_sym P)). apply in_map. exact Hr.
-  - intros l d Hin. destruct (S _ _ Hin) as (c & Hc & -> & ->).
-    destruct (Shape _ Hc) as (r & Hr & ->). exists r. split; auto.
-    destruct (spec_product_shape _ _ Hr) as (ix & _ & Lix & Ep & Lp).
-    split; auto. rewrite Ep at 2. rewrite spec_label_dask_product by auto. rewrite <- Ep. reflexivity.
+  intros c. split; intros H; [apply (Permutation_in _ P) | apply (Permutation_in _ (Permutation_sym P))]; exact H.
 Qed.
 
-(* the only thing that stops the coded dask path: a value twice in a list (pandas refuses a non-unique
-   MultiIndex) *)
+(* ------------------------------------------------------------------------------------ de-duplicated levels *)
+
+Lemma dedup_aux_in : forall l seen x,
+  In x (dedup_pvals_aux seen l) <-> (In x l /\ ~ In x seen).
+Proof.
+  induction l as [|a l IH]; intros seen x; simpl; [tauto|].
+  destruct (existsb (pval_eqb a) seen) eqn:E.
+  - rewrite IH. apply existsb_exists in E. destruct E as (y & Hy & Ey). apply pval_eqb_eq in Ey. subst y.
+    split; [tauto|]. intros [[->|H] Hn]; [contradiction | auto].
+  - simpl. rewrite IH. split.
+    + intros [->|[H Hn]]; [|simpl in Hn; tauto]. split; auto. intros Hs.
+      assert (existsb (pval_eqb x) seen = true) by (apply existsb_exists; exists x; split; auto; apply pval_eqb_eq; auto).
+      congruence.
+    + intros [[->|H] Hn]; auto.
+      destruct (pval_eqb a x) eqn:Eq.
+      * apply pval_eqb_eq in Eq. auto.
+      * right. split; auto. simpl. intros [->|Hs]; [|contradiction].
+        assert (pval_eqb x x = true) by (apply pval_eqb_eq; auto). congruence.
+Qed.
+
+Lemma dedup_in : forall l x, In x (dedup_pvals l) <-> In x l.
+Proof. intros. unfold dedup_pvals. rewrite dedup_aux_in. simpl. tauto. Qed.
+
+Lemma dedup_aux_nodup : forall l seen, pvals_nodup (dedup_pvals_aux seen l) = true.
+Proof.
+  induction l as [|a l IH]; intros seen; simpl; auto.
+  destruct (existsb (pval_eqb a) seen) eqn:E; auto. simpl. rewrite IH, andb_true_r.
+  apply negb_true_iff. destruct (existsb (pval_eqb a) (dedup_pvals_aux (a :: seen) l)) eqn:X; auto.
+  apply existsb_exists in X. destruct X as (y & Hy & Ey). apply pval_eqb_eq in Ey. subst y.
+  apply dedup_aux_in in Hy. simpl in Hy. tauto.
+Qed.
+
+Lemma dedup_nodup : forall l, pvals_nodup (dedup_pvals l) = true.
+Proof. intros. apply dedup_aux_nodup. Qed.
+
+Lemma dedup_aux_length : forall l seen, length (dedup_pvals_aux seen l) <= length l.
+Proof. induction l; intros; simpl; auto. destruct (existsb _ _); simpl; [rewrite IHl; lia | specialize (IHl (a :: seen)); lia]. Qed.
+
+(* cells over levels with the same members have the same members *)
+Lemma dask_cells_same_set : forall norm steps c,
+  (forall l x, In x (norm l) <-> In x l) ->
+  (In c (dask_product_cells norm steps) <-> In c (dask_product_cells (fun l => l) steps)).
+Proof.
+  intros norm steps c H. unfold dask_product_cells. rewrite !in_map_iff.
+  assert (G : forall vs, In vs (iproduct (map (fun s => norm (snd s)) steps)) <->
+                         In vs (iproduct (map (fun s => snd s) steps))).
+  { intros vs. rewrite !in_iproduct. revert vs. induction steps as [|s steps IH]; intros vs; simpl.
+    - tauto.
+    - split; intros F; inversion F; subst; constructor; try (apply IH; assumption); apply H; assumption. }
+  split; intros (vs & E & Hin); exists vs; split; auto; apply G; auto.
+Qed.
+
+Lemma list_prod_le : forall a b, Forall2 le a b -> list_prod a <= list_prod b.
+Proof. intros a b H. induction H; simpl; auto. apply Nat.mul_le_mono; auto. Qed.
+
+Lemma dask_product_steps_cells : forall cf norm steps,
+  dask_product_cells norm (dask_product_steps cf steps)
+  = dask_product_cells (fun l => norm (if cf_dask_product_dedup cf then dedup_pvals l else l)) steps.
+Proof.
+  intros cf norm steps. unfold dask_product_steps, dask_product_cells.
+  destruct (cf_dask_product_dedup cf); auto. rewrite !map_map. simpl. reflexivity.
+Qed.
+
+(* the only thing that stops the coded dask path when the levels are not de-duplicated: a value twice in a
+   list (pandas refuses a non-unique MultiIndex) *)
 Lemma observe_dask_product_refuses_duplicates : forall cf ps slots table range,
+  cf_dask_product_dedup cf = false ->
   forallb (fun s => pvals_nodup (snd s)) (dask_steps (enabled ps)) = false ->
   observe_dask cf Product ps slots table range = None.
 Proof.
-  intros cf ps slots table range H. unfold observe_dask. rewrite H.
+  intros cf ps slots table range Hf H. unfold observe_dask, dask_product_steps. rewrite Hf, H.
   destruct (existsb has_ph (enabled ps)); auto.
   destruct (dim_names cf (unique (map p_key (enabled ps)))); auto.
   rewrite andb_false_r. reflexivity.
@@ -227,12 +311,39 @@ Proof.
   rewrite String.eqb_refl. reflexivity.
 Qed.
 
+(* rows built from get_parameters_item (repaired create_params) are the requested runs, for any parameters *)
+Lemma dask_seq_cells_rows : forall cf get ps,
+  cf_dask_sequential_rows cf = true -> dask_seq_cells cf get ps = spec_sequential_params get (enabled ps).
+Proof.
+  intros cf get ps H. unfold dask_seq_cells. rewrite H.
+  destruct (sequential_correct get ps) as (E & _). exact E.
+Qed.
+
+(* with one enabled parameter the rows are the requested runs whichever way they are built *)
+Theorem dask_seq_cells_one : forall cf get ps p,
+  enabled ps = [p] -> dask_seq_cells cf get ps = spec_sequential_params get [p].
+Proof.
+  intros cf get ps p E. unfold dask_seq_cells. destruct (cf_dask_sequential_rows cf).
+  - destruct (sequential_correct get ps) as (H & _). rewrite H, E. reflexivity.
+  - rewrite E. apply dask_sequential_one.
+Qed.
+
+(* the zipped rows are not the requested runs in general *)
+Lemma dask_seq_cells_zip_witness : forall cf,
+  cf_dask_sequential_rows cf = false ->
+  dask_seq_cells cf (fun _ => Sc 0)
+    [mkParam "k.a" (Lit [Sc 8; Sc 16; Sc 24]) true; mkParam "k.b" (Lit [Sc 80; Sc 96]) true]
+  <> spec_sequential_params (fun _ => Sc 0)
+       (enabled [mkParam "k.a" (Lit [Sc 8; Sc 16; Sc 24]) true; mkParam "k.b" (Lit [Sc 80; Sc 96]) true]).
+Proof. intros cf H. unfold dask_seq_cells. rewrite H. vm_compute. discriminate. Qed.
+
 (* ------------------------------------------------------------------------------------ the whole dask observation *)
 
-(* Product mode through observe_dask (levels sorted as pandas does): distinct keys, distinct names that
-   do not clash with the array dimensions, no value twice in a list.  The observation runs; the executed
-   runs are the requested ones, each once (in dask's order); every requested run is found under its
-   value-labels with its own data; nothing else is stored. *)
+(* Product mode through observe_dask (levels sorted as pandas does, de-duplicated first if the source does
+   that): distinct keys, distinct names that do not clash with the array dimensions, and -- unless the levels
+   are de-duplicated -- no value twice in a list.  The observation runs; exactly the requested runs are
+   executed (never more executions than requested runs); every requested run is found under its value-labels
+   with its own data; nothing else is stored. *)
 Theorem dask_product_observe : forall cf ps slots table range names,
   let en := enabled ps in
   let keys := map p_key en in
@@ -241,9 +352,10 @@ Theorem dask_product_observe : forall cf ps slots table range names,
   dim_names cf keys = Some names ->
   NoDup (map snd names) ->
   str_nodup (map (name_of names) keys ++ reserved_dims) = true ->
-  forallb (fun s => pvals_nodup (snd s)) (dask_steps en) = true ->
+  cf_dask_product_dedup cf = true \/ forallb (fun s => pvals_nodup (snd s)) (dask_steps en) = true ->
   exists oc, observe_dask cf Product ps slots table range = Some oc /\
-    Permutation (oc_runs oc) (map (fun r => received slots (r_params r)) (spec_product en)) /\
+    (forall x, In x (oc_runs oc) <-> In x (map (fun r => received slots (r_params r)) (spec_product en))) /\
+    length (oc_runs oc) <= length (spec_product en) /\
     (forall r, In r (spec_product en) ->
        lookup (spec_label_dask Product names en (r_index r) (r_params r)) (oc_result oc)
        = Some (data_of slots (r_params r))) /\
@@ -254,14 +366,43 @@ Theorem dask_product_observe : forall cf ps slots table range names,
 Proof.
   intros cf ps slots table range names en keys Nk Hph Hn Nn Hres Hdup.
   pose proof (names_nodup _ _ _ Nk Hn Nn) as NN.
-  destruct (dask_product_lookup sort_level names slots en sort_level_perm Nk NN) as (res & A & F & S & Nd).
-  set (cells := dask_product_cells sort_level (dask_steps en)) in *.
-  exists (mkOutcome (map (fun c => received slots c) cells) res). split.
+  set (cells := dask_product_cells sort_level (dask_product_steps cf (dask_steps en))).
+  set (nrm := fun l => sort_level (if cf_dask_product_dedup cf then dedup_pvals l else l)).
+  assert (Ec : cells = dask_product_cells nrm (dask_steps en)) by (apply dask_product_steps_cells).
+  assert (Hmem : forall l x, In x (nrm l) <-> In x l).
+  { intros l x. unfold nrm. split; intros H.
+    - apply (Permutation_in _ (sort_level_perm _)) in H. destruct (cf_dask_product_dedup cf); auto. apply dedup_in; auto.
+    - apply (Permutation_in _ (Permutation_sym (sort_level_perm _))).
+      destruct (cf_dask_product_dedup cf); auto. apply dedup_in; auto. }
+  assert (P : forall c, In c cells <-> In c (map r_params (spec_product en))).
+  { intros c. rewrite Ec, dask_cells_same_set by exact Hmem. rewrite dask_product_cells_spec by exact Nk. tauto. }
+  destruct (dask_product_lookup_set names slots en cells Nk NN P) as (res & A & F & S & Nd).
+  assert (Hnd : forallb (fun s => pvals_nodup (snd s)) (dask_product_steps cf (dask_steps en)) = true).
+  { unfold dask_product_steps. destruct (cf_dask_product_dedup cf) eqn:Ed.
+    - apply forallb_forall. intros s Hs. apply in_map_iff in Hs. destruct Hs as (s0 & <- & _). simpl. apply dedup_nodup.
+    - destruct Hdup as [?|?]; [discriminate | assumption]. }
+  exists (mkOutcome (map (fun c => received slots c) cells) res). split; [|simpl; repeat split; auto].
   - unfold observe_dask. fold en. rewrite Hph.
     replace (unique (map p_key en)) with keys by (symmetry; apply unique_nodup_id; exact Nk).
-    rewrite Hn, Hres, Hdup. simpl. fold cells. unfold dask_outcome. rewrite !map_map. simpl.
+    rewrite Hn, Hres, Hnd. simpl. fold cells. unfold dask_outcome. rewrite !map_map. simpl.
     rewrite A. reflexivity.
-  - simpl. split; [|repeat split; auto].
-    rewrite <- (map_map r_params (received slots)). apply Permutation_map.
-    apply dask_product_cells_are_space; auto. apply sort_level_perm.
+  - intros H. apply in_map_iff in H. destruct H as (c & <- & Hc). apply P in Hc.
+    apply in_map_iff in Hc. destruct Hc as (r & <- & Hr). apply in_map_iff. exists r. auto.
+  - intros H. apply in_map_iff in H. destruct H as (r & <- & Hr). apply in_map_iff. exists (r_params r). split; auto.
+    apply P. apply in_map. exact Hr.
+  - rewrite map_length. unfold cells, dask_product_cells. rewrite map_length, list_prod_length_iproduct.
+    unfold spec_product. rewrite map_length, seq_length. rewrite dask_steps_nodup by exact Nk.
+    apply list_prod_le. unfold dask_product_steps.
+    generalize en. intros l. induction l as [|p l IH]; simpl.
+    + destruct (cf_dask_product_dedup cf); constructor.
+    + destruct (cf_dask_product_dedup cf) eqn:Ed; simpl in *; constructor; auto.
+      * unfold plen, dedup_pvals. rewrite (Permutation_length (sort_level_perm _)). apply dedup_aux_length.
+      * unfold plen. rewrite (Permutation_length (sort_level_perm _)). lia.
 Qed.
+
+(* without de-duplication a value twice in a list is refused although the request is well-formed *)
+Lemma dask_product_duplicates_witness : forall cf,
+  cf_dask_product_dedup cf = false ->
+  observe_dask cf Product [mkParam "pipeline.charge_collection.m1.arguments.a" (Lit [Sc 8; Sc 8]) true] [] [] None
+  = None.
+Proof. intros cf H. apply observe_dask_product_refuses_duplicates; auto. Qed.
